@@ -23,12 +23,17 @@ DECIDED = [
     "first while it is still ahead",
     "R-C06-ONE (reuse): every iteration ends in an outcome (C02's CATCH) and a finished iteration is not also handed back at shutdown (C03's SHUTDOWN)",
     "R-C06-RESET (round 5): Redis requeue really overwrites the stored parameters (HSET, not HSETNX); R-C06-ANCHOR (period form): floor + 1 of C19 reused - the successor is strictly after now also exactly on a slot boundary",
+    "R-C06-ONE (round 6): an exhausted eager retry reaches the ladder's reschedule branch (retry() does not dead-letter); RabbitMQ requeue uses the failed delivery's tag before it publishes the copy",
+    "R-C06-AWAITED: in the files this property is anchored in, no bare statement calls a coroutine function (the operation would never run)",
 ]
 NOT_DECIDED = ["the period arithmetic itself (strictly in the future, at most one period ahead): runtime values, see C19"]
 ASSUMPTIONS = ["exactly-one-requeue per run relies on C02 (one disposition) and C01 (requeue replaces the held message)"]
 
 
 def run(ctx: Ctx) -> None:
+    from .shared import every_operation_awaited
+
+    every_operation_awaited(ctx, "R-C06-AWAITED")  # in the files this property is anchored in, no asynchronous operation is created and dropped
     lt = check_ladder(ctx, "R-C06-LADDER", rows=lambda s, b, d, c: d or c)
     check_ladder_arguments(ctx, "R-C06-LADDER", lt, kinds=("reschedule",))
     info = check_prepare_reschedule(ctx, "R-C06-RESET")
@@ -42,6 +47,12 @@ def run(ctx: Ctx) -> None:
     with ctx.as_rule("R-C06-ONE"):
         catch(ctx, "R-C06-ONE")  # an iteration always ends in an outcome (never escapes process()), so the reschedule branch is always reached: never no successor
         shutdown(ctx, "R-C06-ONE")  # a finished iteration's message is not also handed back by finish(): never two successors  # a run that completed must not also be returned to the queue: that would leave two successors
+    from .brokers import rabbit_rules
+
+    rabbit_rules(ctx, rule_t="R-C06-ONE", rule_a="R-C06-ONE", atomic_finding=False)  # the retry / successor copy is published after the old delivery's tag was used: a stale iteration cannot come back and produce a second successor
+    from .shared import eager_action_rules
+
+    eager_action_rules(ctx, "R-C06-ONE")  # an exhausted eager retry must reach the ladder's reschedule branch (never no successor): retry() does not dead-letter on its own
     from .brokers import redis_op_fields
     from .C19 import period
 
